@@ -331,12 +331,14 @@ Inductive jeff (c : cfg) (s s' : state) (x : nat) (sub : Prop) : Prop :=
             Jb s' x = mkJst Running false (tend (Jb s x)) (ran (Jb s x)) -> jeff c s s' x sub
 | JE_create_main : st (Jb s x) = Idle -> Jb s' x = mkJst Created false None false ->
                    all_done s (reqs c x) = true -> In x (members c (parent c x)) ->
-                   ph (Rn s (parent c x)) = PMain -> ph (Rn s' (parent c x)) = PMain -> jeff c s s' x sub
+                   ph (Rn s (parent c x)) = PMain -> ph (Rn s' (parent c x)) = PMain ->
+                   In x (pend (Rn s' (parent c x))) -> jeff c s s' x sub
 | JE_create_begin : Jb s' x = mkJst Created false None false ->
                     reqs c x = [] -> In x (members c (parent c x)) ->
                     (if rootb (parent c x) then ph (Rn s 0) = PIdle
                      else st (Jb s (parent c x)) = Created) ->
-                    ph (Rn s' (parent c x)) = PMain -> jeff c s s' x sub
+                    ph (Rn s' (parent c x)) = PMain ->
+                    In x (pend (Rn s' (parent c x))) -> jeff c s s' x sub
 | JE_start : sub -> st (Jb s x) = Created -> cp (Jb s x) = false ->
              st (Jb s' x) = Running -> cp (Jb s' x) = false -> ran (Jb s' x) = true -> jeff c s s' x sub
 | JE_start_done : sub -> st (Jb s x) = Created -> cp (Jb s x) = false -> j_sched (jc c x) = true ->
@@ -391,6 +393,7 @@ Proof.
         -- apply rootb_true in Er. subst n. destruct (ph (Rn s 0)); try discriminate. reflexivity.
         -- destruct (st (Jb s n)); try discriminate. reflexivity.
       * rewrite Hp. rewrite Rn_setR_same. reflexivity.
+      * rewrite Hp. rewrite Rn_setR_same. cbn [pend]. unfold entry. apply filter_In. split; [exact Hm|exact Hr].
     + rewrite HJ0 in E. destruct (Nat.eqb_spec n 0) as [->|Hn0]; [apply JE_same; exact E|].
       destruct (Nat.eqb_spec x n) as [->|Hxn]; [|apply JE_same; exact E].
       apply rootb_false in Hn0. rewrite Hn0 in Hg.
@@ -435,13 +438,21 @@ Proof.
         end.
         destruct (memb x new) eqn:Ex; [|apply JE_same; exact E].
         apply memb_In in Ex. unfold new in Ex. apply filter_In in Ex. destruct Ex as [Hc Hst].
-        unfold cand in Hc. apply filter_In in Hc. destruct Hc as [Hm _].
+        pose proof Hc as Hc'. unfold cand in Hc. unfold cand in Hc'. apply filter_In in Hc. destruct Hc as [Hm _].
         pose proof (proj1 (In_members c n x) Hm) as (Hx & Hp & Hx0).
         destruct (st (Jb s x)) eqn:Est; try discriminate.
+        assert (Hinp : In x (pend (Rn (setR (mapJ create_j new s) n
+                   (mkRst (ph (Rn s n)) (diff (pend (Rn s n)) d ++ new) (seen (Rn s n) ++ d)
+                      (ndone (Rn s n) + length (filter (fun j : nat => negb (j_forever (jc c j))) d))
+                      (qsz (Rn s n)) (expi (Rn s n)) (tbeg (Rn s n)) (fto (Rn s n)) (fcr (Rn s n)) (rcanc (Rn s n)))) n))).
+        { rewrite Rn_setR_same. cbn [pend]. apply in_app_iff. right. unfold new. apply filter_In. split.
+          - unfold cand. apply filter_In. split; [exact Hm|]. apply filter_In in Hc'. tauto.
+          - rewrite Est. exact Hst. }
         apply JE_create_main; auto.
         -- rewrite Hp. exact Hm.
         -- rewrite Hp. exact Hph.
         -- rewrite Hp. exact ER.
+        -- rewrite Hp. exact Hinp.
 Qed.
 
 Lemma run_alive_false c s n : run_alive c s n false = true ->
